@@ -118,6 +118,17 @@ def _ranking_rules(ctx, prog, es, acq):
         if isinstance(n_, ast.Assign) and isinstance(n_.value, ast.Call) and any(t is acq for t in prog.resolve_call(es, n_.value)):
             t0 = n_.targets[0]
             acq_names |= {t0.elts[0].id} if isinstance(t0, ast.Tuple) and isinstance(t0.elts[0], ast.Name) else ({t0.id} if isinstance(t0, ast.Name) else set())
+    grew = True
+    while grew:
+        grew = False
+        for t, v, s_, k in iter_stores(es.node):
+            if isinstance(t, ast.Name) and t.id not in acq_names and k == "assign":
+                inner = v
+                while isinstance(inner, ast.Call) and isinstance(inner.func, ast.Attribute) and inner.func.attr in ("flatten", "ravel", "copy", "squeeze") and not inner.args:
+                    inner = inner.func.value
+                if inner is not v and isinstance(inner, ast.Name) and inner.id in acq_names:
+                    acq_names.add(t.id)  # z_new = z_raw.flatten()
+                    grew = True
     local_names = {t.id for t, v, s_, k in iter_stores(es.node) if isinstance(t, ast.Name)} - set(es.params)
     fallback = set()
     for n_ in ast.walk(es.node):
@@ -296,9 +307,19 @@ def check(ctx):
     zsrc = {}
     for zn, un, s in acq_pairs:
         zsrc[zn] = un
-    for t, v, s, k in iter_stores(es.node):
-        if isinstance(t, ast.Name) and t.id in zsrc and isinstance(v, ast.Call) and isinstance(v.func, ast.Attribute) and v.func.attr == "flatten" and canon(v.func.value) == t.id:
-            pass
+    # the values keep their rows through a reshaping copy kept under another name (z_new = z_raw.flatten())
+    grew = True
+    while grew:
+        grew = False
+        for t, v, s, k in iter_stores(es.node):
+            if isinstance(t, ast.Name) and t.id not in zsrc and k == "assign":
+                inner = v
+                while isinstance(inner, ast.Call) and ((isinstance(inner.func, ast.Attribute) and inner.func.attr in ("flatten", "ravel", "copy", "squeeze") and not inner.args)
+                                                       or (call_name(inner) in ("np.ravel", "np.asarray", "np.squeeze", "np.copy") and len(inner.args) == 1)):
+                    inner = inner.func.value if isinstance(inner.func, ast.Attribute) and not inner.args else inner.args[0]
+                if inner is not v and isinstance(inner, ast.Name) and inner.id in zsrc:
+                    zsrc[t.id] = zsrc[inner.id]
+                    grew = True
     lock = 0
     for key, d in blocks.items():
         names = sorted(d)
